@@ -51,7 +51,7 @@ EXPLANATION = (
     "as the same exception object after exactly one execution."
 )
 ASSUMPTIONS = [
-    "RollbackFailureManager._recover (WorkflowBuilder/ProvenanceGraph/StreamFlowExecutor over sqlite) is replaced by a stub that (1) takes the failed job's RecoveryRequest.lock and calls the REAL _synchronize_workflows for that request, (2) re-runs the failed job once through the same @recoverable coroutine as ExecuteStep._run_job does (notify RUNNING, run, notify final status, swallow the exception) and raises a fresh WorkflowExecutionException when that run failed (StreamFlowExecutor.run behaviour; variant wrap=False passes the inner exception up unchanged). Real re-runs of a rebuilt workflow are outside the claim",
+    "RollbackFailureManager._recover (WorkflowBuilder/ProvenanceGraph/StreamFlowExecutor over sqlite) is replaced by a stub that (1) takes the failed job's RecoveryRequest.lock and calls the REAL _synchronize_workflows for that request, (2) re-runs the failed job once through the same @recoverable coroutine as ExecuteStep._run_job does (notify RUNNING, run, notify final status, swallow the exception; symbolic variant notify=False: no status notification around the run, as ScheduleStep._schedule / TransferStep._run_transfer, so the allocation keeps the status recovery left) and raises a fresh WorkflowExecutionException when that run failed (StreamFlowExecutor.run behaviour; variant wrap=False passes the inner exception up unchanged). Real re-runs of a rebuilt workflow are outside the claim",
     "only the failed job's own RecoveryRequest is synchronised (single failing job; no other job of the recovery workflow is rolled back concurrently), so the 'job is currently executing elsewhere' branch of _synchronize_workflows is not exercised",
     "stub scheduler: notify_status records (job, status) and sets the allocation status; get_allocation returns that allocation",
     "stub Step (minimal subclass of streamflow.core.workflow.Step) and real Job; StubContext/StubDatabase; DetLoop instead of the selector loop; logging disabled",
@@ -122,7 +122,7 @@ class StubScheduler:
 class World:
     """one stub step with one job; `pattern[i]` decides the (i+1)-th execution of the body."""
 
-    def __init__(self, pattern, manager, max_retries=None, retry_delay=None, wrap=True):
+    def __init__(self, pattern, manager, max_retries=None, retry_delay=None, wrap=True, notify=True):
         from lib.detloop import DetLoop
         from lib.stubs import StubContext, new_workflow
         from streamflow.core.recovery import recoverable
@@ -131,6 +131,10 @@ class World:
 
         self.pattern = pattern
         self.wrap = wrap
+        # notify=True: the step reports RUNNING / final status to the scheduler around the job
+        # (ExecuteStep._run_job); notify=False: it does not (ScheduleStep._schedule,
+        # TransferStep._run_transfer: the allocation keeps whatever status recovery left)
+        self.notify = notify
         self.execs = 0
         self.raised: list = []  # exception objects raised by the body, in order
         self.ctx = StubContext()
@@ -175,7 +179,8 @@ class World:
                 """what ExecuteStep._run_job does around the @recoverable coroutine"""
                 status = Status.FAILED
                 try:
-                    await self.workflow.context.scheduler.notify_status(job.name, Status.RUNNING)
+                    if world.notify:
+                        await self.workflow.context.scheduler.notify_status(job.name, Status.RUNNING)
                     await self.execute(job)
                     status = Status.COMPLETED
                 except asyncio.CancelledError:
@@ -183,7 +188,8 @@ class World:
                 except Exception:
                     status = Status.FAILED
                 finally:
-                    await self.workflow.context.scheduler.notify_status(job.name, status)
+                    if world.notify:
+                        await self.workflow.context.scheduler.notify_status(job.name, status)
                 return status
 
         if manager == "rollback":
@@ -205,7 +211,8 @@ class World:
                         if await failed_step.run_job(failed_job) != Status.COMPLETED:
                             raise WorkflowExecutionException("FAILED Workflow execution")
                     else:
-                        await self.context.scheduler.notify_status(failed_job.name, Status.RUNNING)
+                        if world.notify:
+                            await self.context.scheduler.notify_status(failed_job.name, Status.RUNNING)
                         await failed_step.execute(failed_job)
 
             self.fm = KernelRollbackFailureManager(self.ctx, max_retries=max_retries, retry_delay=retry_delay)
@@ -301,13 +308,13 @@ def prop_update_step(version: int, has_max: bool, m: int, other_version: int) ->
         return req.version == version and sched.log == []
 
 
-def prop_flow(pattern, has_max: bool, m: int, wrap: bool, delay0: bool) -> bool:
+def prop_flow(pattern, has_max: bool, m: int, wrap: bool, delay0: bool, notify: bool = True) -> bool:
     """the whole retry flow agrees with the reference loop"""
     from streamflow.core.exception import FailureHandlingException
     from streamflow.core.workflow import Status
 
     max_retries = m if has_max else None
-    w = World(pattern, "rollback", max_retries=max_retries, retry_delay=0 if delay0 else None, wrap=wrap)
+    w = World(pattern, "rollback", max_retries=max_retries, retry_delay=0 if delay0 else None, wrap=wrap, notify=notify)
     outcome, exc = w.run()
     if outcome == "loop":
         return False
@@ -422,15 +429,16 @@ def specs(tier: str):
                 group="FLOW: executions <= max(1, max_retries), raise on exhaustion",
                 source=mk_source(
                     IMPORTS,
-                    p + ", has_max: bool, m: int, delay0: bool",
+                    p + ", has_max: bool, m: int, delay0: bool, notify: bool",
                     pre + [f"0 <= m <= {M}", "has_max or m == 0"],
-                    f"prop_flow({expr}, has_max, m, {wrap}, delay0)",
+                    f"prop_flow({expr}, has_max, m, {wrap}, delay0, notify)",
                 ),
                 cond=900 if quick else 2400,
                 path=90,
                 bound=f"failure pattern of {L} symbolic entries (i-th execution fails?), later executions succeed; max_retries None or 0..{M}; retry_delay None or 0; "
-                + ("recovery-workflow failure surfaces as the executor's WorkflowExecutionException" if wrap else "inner exception passed up unchanged"),
-                symbolic=f"{L + 1} ints + 2 bools",
+                + ("recovery-workflow failure surfaces as the executor's WorkflowExecutionException" if wrap else "inner exception passed up unchanged")
+                + "; failing phase = execute (step reports RUNNING/FAILED to the scheduler) or schedule/transfer (it does not)",
+                symbolic=f"{L + 1} ints + 3 bools",
                 targets=T_FLOW,
             )
         )
@@ -444,14 +452,14 @@ def specs(tier: str):
                 group="FLOW: executions <= max(1, max_retries), raise on exhaustion",
                 source=mk_source(
                     IMPORTS,
-                    p + ", has_max: bool, m: int",
+                    p + ", has_max: bool, m: int, notify: bool",
                     pre + [f"0 <= m <= {L2 + 1}", "has_max or m == 0"],
-                    f"prop_flow({expr}, has_max, m, {wrap}, False)",
+                    f"prop_flow({expr}, has_max, m, {wrap}, False, notify)",
                 ),
                 cond=900 if quick else 2400,
                 path=90,
-                bound=f"{L2} symbolic executions, each succeeds / fails / raises UnrecoverableWorkflowException / is cancelled; max_retries None or 0..{L2 + 1}",
-                symbolic=f"{L2 + 1} ints + 1 bool",
+                bound=f"{L2} symbolic executions, each succeeds / fails / raises UnrecoverableWorkflowException / is cancelled; max_retries None or 0..{L2 + 1}; failing phase execute or schedule/transfer",
+                symbolic=f"{L2 + 1} ints + 2 bools",
                 targets=T_FLOW,
             )
         )
